@@ -206,6 +206,9 @@ def _rename(fn, mapping):
 #   N3  a > b / a >= b           ->  b < a / b <= a ;  CONST == x -> x == CONST
 #   N4  if not c: B else: A      ->  if c: A else: B       (else present, not an elif chain)
 #   N5  not (a <cmp> b)          ->  a <negated cmp> b ;  not not x -> x (in tests)
+#   N6  pass in a non-empty block ->  removed
+#   N7  struct_parse(s, st, stream_pos=p) -> struct_parse(s, st, p)   (keywords of the common/utils helpers made positional)
+#   N8  while 1:                 ->  while True:
 # ---------------------------------------------------------------------------------------------------
 _NEG = {ast.Eq: ast.NotEq, ast.NotEq: ast.Eq, ast.Lt: ast.GtE, ast.GtE: ast.Lt, ast.Gt: ast.LtE, ast.LtE: ast.Gt,
         ast.In: ast.NotIn, ast.NotIn: ast.In, ast.Is: ast.IsNot, ast.IsNot: ast.Is}
@@ -226,9 +229,30 @@ def _constlike(n):
     return False
 
 
+KNOWN_SIGS = {'struct_parse': ['struct', 'stream', 'stream_pos'], 'parse_cstring_from_stream': ['stream', 'stream_pos'],
+              'elf_assert': ['cond', 'msg'], 'dwarf_assert': ['cond', 'msg'], 'roundup': ['num', 'bits']}
+
+
 class _Norm(ast.NodeTransformer):
     def __init__(self, counts):
         self.counts = counts     # name -> (stores, loads) in the enclosing outermost function
+
+    def visit_Call(self, n):
+        self.generic_visit(n)
+        if isinstance(n.func, ast.Name) and n.func.id in KNOWN_SIGS and n.keywords and not any(isinstance(a, ast.Starred) for a in n.args):
+            sig = KNOWN_SIGS[n.func.id]
+            kws = dict((k.arg, k) for k in n.keywords if k.arg)
+            while len(n.args) < len(sig) and sig[len(n.args)] in kws:
+                k = kws.pop(sig[len(n.args)])
+                n.keywords.remove(k)
+                n.args.append(k.value)
+        return n
+
+    def visit_While(self, n):
+        self.generic_visit(n)
+        if isinstance(n.test, ast.Constant) and n.test.value == 1 and n.test.value is not True:
+            n.test = ast.copy_location(ast.Constant(value=True), n.test)
+        return n
 
     def visit_UnaryOp(self, n):
         self.generic_visit(n)
@@ -289,9 +313,12 @@ class _Norm(ast.NodeTransformer):
                 out.append(ast.copy_location(ast.Return(value=st.value), st))
                 i += 2
                 continue
+            if isinstance(st, ast.Pass) and len(stmts) > 1:
+                i += 1
+                continue
             out.append(st)
             i += 1
-        return out
+        return out or [ast.Pass()]
 
     def generic_visit(self, node):
         super().generic_visit(node)
